@@ -403,7 +403,9 @@ class Z3Dom:
             if t == 1:
                 return Fraction(1)
         if isinstance(t, Cx):
-            raise Unsupported("sqrt of complex")
+            # principal complex square root: uninterpreted (nothing in the statements relies on it)
+            keys = [_real(zconst(t.re)), _real(zconst(t.im))]
+            return Cx(self.opaque_real("csqrt_re", keys), self.opaque_real("csqrt_im", keys))
         te = _real(zconst(t))
         s = self.uf("sqrt")(te)
         key = s.get_id()
